@@ -31,12 +31,12 @@ if __name__ == '__main__':
         for n in C.LEMMAS:
             show(run.run_task(('lemma', n, 0, 'quick')), verbose)
     elif kind == 'funcs':
-        for n in C.CONTRACTS:
+        for n in C.VERIFY:
             if len(sys.argv) > 2 and sys.argv[2] not in n:
                 continue
             show(run.run_task(('func', n, 0, 'quick')), verbose)
     else:
         name = sys.argv[2]
-        if kind == 'func' and name not in C.CONTRACTS:
-            name = [q for q in C.CONTRACTS if q.endswith(name)][0]
+        if kind == 'func' and name not in C.VERIFY:
+            name = [q for q in C.VERIFY if q.endswith(name)][0]
         show(run.run_task((kind, name, 0, 'quick')), verbose)
